@@ -6,6 +6,10 @@ From Cfg Require Export Lib.Run Gen.WsConst Model.WsUtf8 Model.WsClose Model.WsC
 Import ListNotations.
 Open Scope N_scope.
 
+(* compact notation of the driver for long periodic byte strings *)
+Fixpoint rep (p : bytes) (n : nat) : bytes :=
+  match n with O => [] | S k => p ++ rep p k end.
+
 Record case := mkCase {
   c_cfg : wcfg;
   c_keys : list bytes;        (* masking keys, in the order they appear on the wire (client only) *)
